@@ -271,10 +271,37 @@ def chi2_sweep(tier, seed):
                 probs.append(f'verdict {bool(r)} but the probability is {p} at level 0.05')
             if probs:
                 fails.append({'input': {'values': v, 'errors': e, 'number_type': kind, 'alpha': 0.05, 'ignore_empty': ignore}, 'observed': probs[:3], 'expected': 'C07 oracle (exact rational arithmetic)'})
+    # far tails and levels anywhere in (0, 1): the upper-tail probability itself (closed forms: erfc(sqrt(x/2)) for 1 degree of freedom, exp(-x/2) for 2), compared
+    # with levels just below and just above it, down to 1e-300
+    for k, closed in ((1, lambda x: math.erfc(math.sqrt(x / 2))), (2, lambda x: math.exp(-x / 2))):
+        for x_target in (0.5, 4.0, 40.0, 100.0, 400.0, 1200.0):
+            per_bin = x_target / k
+            v2 = [math.sqrt(per_bin)] * k          # errors 1/sqrt(2) on both sides: each bin contributes (v1 - v2)^2
+            e = [math.sqrt(0.5)] * k
+            p_true = closed(sum(b * b for b in v2))
+            for scalar in ((False, True) if k == 1 else (False,)):
+                for factor in (0.5, 2.0):
+                    alpha = p_true * factor
+                    if not 0.0 < alpha < 1.0:
+                        continue
+                    n += 1
+                    d1 = _ds_scalar(0.0, e[0]) if scalar else _ds([0.0] * k, e)
+                    d2 = _ds_scalar(v2[0], e[0]) if scalar else _ds(v2, e)
+                    r = TestChi2(d1, d2, name='c', alpha=alpha).evaluate()
+                    got_p = float(np.ravel(r.pvalue)[0])
+                    probs = []
+                    if not math.isclose(got_p, p_true, rel_tol=1e-6, abs_tol=0.0):
+                        probs.append(f'upper-tail probability {got_p!r} for chi2 = {sum(b * b for b in v2)} with {k} degree(s) of freedom; the law gives {p_true!r}')
+                    if bool(r) != (p_true > alpha):
+                        probs.append(f'verdict {bool(r)} at level {alpha!r} although the probability is {p_true!r}')
+                    if probs:
+                        fails.append({'input': {'values': [[0.0] * k, v2], 'errors': [e, e], 'alpha': alpha, 'ignore_empty': False, 'scalar': scalar}, 'observed': probs[:3],
+                                      'expected': 'C07 oracle (closed form of the chi-square upper tail)'})
     return {'name': 'chi2-native', 'evaluations': n, 'distinct': n, 'failures': fails[:8], 'exhaustive': False,
             'bound': 'seeded random datasets of 1-3 bins, 1-2 compared datasets, values / errors from the small scope (NaN and infinities only without ignore_empty), '
                      'alpha in {0.01, 0.05, 0.5}, both settings of ignore_empty; statistic, ndf, probability decision, permutation of bins; plus tiny magnitudes '
-                     '(values ~1e-9, errors 1e-10..5e-9) and integer-valued datasets (int64 / int32 arrays, Python ints, differences up to 7.5e9) against an oracle in exact rational arithmetic',
+                     '(values ~1e-9, errors 1e-10..5e-9) and integer-valued datasets (int64 / int32 arrays, Python ints, differences up to 7.5e9) against an oracle in exact rational arithmetic; far tails: chi2 in {0.5 .. 1200} with 1 and 2 degrees of freedom against the closed forms of the upper tail, '
+                     'levels at half and twice that probability (down to 1e-261)',
             'samples': [{'values': [[1.0, 2.0], [1.0, 0.0]], 'errors': [[0.0, 1.0], [0.0, 1.0]], 'alpha': 0.05, 'ignore_empty': True}]}
 
 
@@ -397,6 +424,14 @@ def bonferroni_sweep(tier, seed):
             goth = np.ravel(rh.rejected_null_hyp[d]).tolist()
             if goth != wanth and not _holm_tie_ok(pv, goth, alpha / 2):
                 probs.append(f'Holm, dataset {d} of {nd}: flags {goth} != rank rule {wanth} for p-values {pv}')
+        # the verdict of the whole comparison: true exactly when nothing is flagged in ANY compared dataset; one oracle per dataset
+        for lab, r in (('Bonferroni', rb), ('Holm', rh)):
+            flagged = [bool(np.any(x)) for x in r.rejected_null_hyp]
+            if bool(r) != (not any(flagged)):
+                probs.append(f'{lab}: verdict {bool(r)} although the datasets with flagged bins are {flagged}')
+            orc = [bool(x) for x in r.oracles()]
+            if orc != [not f for f in flagged]:
+                probs.append(f'{lab}: oracles {orc} != nothing flagged per dataset {[not f for f in flagged]}')
         if probs:
             fails.append({'input': {'v1': v1, 'others': others, 'e': e, 'alpha': alpha}, 'observed': probs[:3], 'expected': 'C06 oracle, per compared dataset'})
             if len(fails) >= 8:
